@@ -64,6 +64,23 @@ func c1RegionCases(r *rng, thorough bool) []*c1case {
 			}
 			add("loopvar-defer", src, "", c1Pred{y.String() + "end\n", "ok"})
 		}
+		// loopvar-defer, variables declared in the loop body (:= in a condition-only loop, var in a range loop)
+		{
+			src := c1Wrap("", fmt.Sprintf("\tfunc() {\n\t\tk := 0\n\t\tfor k < %d {\n\t\t\tw := k * %d\n\t\t\tdefer func() { fmt.Println(\"d\", w) }()\n\t\t\tk++\n\t\t}\n\t}()\n", n, j0))
+			var y strings.Builder
+			for i := 0; i < n; i++ {
+				fmt.Fprintln(&y, "d", (n-1)*j0)
+			}
+			add("loopvar-defer", src, "", c1Pred{y.String() + "end\n", "ok"})
+		}
+		{
+			src := c1Wrap("", fmt.Sprintf("\tfunc() {\n\t\tfor k := range %d {\n\t\t\tvar w int\n\t\t\tw = k + %d\n\t\t\tdefer func() { fmt.Println(\"v\", w) }()\n\t\t}\n\t}()\n", n, j0))
+			var y strings.Builder
+			for i := 0; i < n; i++ {
+				fmt.Fprintln(&y, "v", n-1+j0)
+			}
+			add("loopvar-defer", src, "", c1Pred{y.String() + "end\n", "ok"})
+		}
 		// loop-empty-body: the loop-variable node of an empty body has no successor; the function ends silently
 		{
 			src := c1Wrap("", fmt.Sprintf("\tfmt.Println(\"before\")\n\tfor i := 0; i < %d; i++ {\n\t}\n\tfmt.Println(\"after\")\n", n))
